@@ -87,8 +87,12 @@ class UAIReader(object):
             )
             grammar += function_grammar
 
+        sign = Optional(Word("+-", exact=1))
         floatnumber = Combine(
-            Word(nums) + Optional(Literal(".") + Optional(Word(nums)))
+            sign
+            + Word(nums)
+            + Optional(Literal(".") + Optional(Word(nums)))
+            + Optional(Word("eE", exact=1) + sign + Word(nums))
         )
         for function in range(0, self.no_functions):
             no_values_grammar = Word(nums).setResultsName(
